@@ -63,7 +63,14 @@ func funcMatches(fn *types.Func, spec Callee) bool {
 	if spec.Pkg != "*" && pkg != spec.Pkg {
 		return false
 	}
-	if spec.Name != "*" && fn.Name() != spec.Name {
+	name := fn.Name()
+	if curProgramRenamed != nil {
+		// a function the loader recognised as renamed answers to the name the rules know
+		if old, ok := curProgramRenamed[fn.FullName()]; ok {
+			name = old[strings.LastIndex(old, ".")+1:]
+		}
+	}
+	if spec.Name != "*" && name != spec.Name {
 		return false
 	}
 	r := recvName(fn)
@@ -158,8 +165,16 @@ func argByName(info *types.Info, call *ast.CallExpr, name string) ast.Expr {
 	return nil
 }
 
+// curProgramRenamed: the rename table of the program being analysed (load.go, aliasRenamed).
+var curProgramRenamed map[string]string
+
 func frozenParamIndex(fn *types.Func, name string, n int) int {
 	names, ok := frozenParams[fn.Origin().FullName()]
+	if !ok && curProgramRenamed != nil {
+		if old, has := curProgramRenamed[fn.Origin().FullName()]; has {
+			names, ok = frozenParams[old]
+		}
+	}
 	if !ok || len(names) != n {
 		return -1
 	}
